@@ -19,7 +19,9 @@ type scriptedReader struct {
 	call   int
 	zeros  int
 	failAt int
-	Calls  []readCall
+	// failHow: what the failing call transfers together with its error: "" / "nothing", "partial" (one byte), "all"
+	failHow string
+	Calls   []readCall
 }
 
 type readCall struct {
@@ -45,10 +47,25 @@ func (r *scriptedReader) Read(p []byte) (n int, err error) {
 	}()
 	call := r.call
 	r.call++
-	if r.failAt >= 0 && call == r.failAt {
-		return 0, errInjected
-	}
 	avail := len(r.data) - r.pos
+	if r.failAt >= 0 && call == r.failAt {
+		k := 0
+		switch r.failHow {
+		case "partial":
+			k = 1
+		case "all":
+			k = len(p)
+		}
+		if k > avail {
+			k = avail
+		}
+		if k > len(p) {
+			k = len(p)
+		}
+		copy(p, r.data[r.pos:r.pos+k])
+		r.pos += k
+		return k, errInjected
+	}
 	if avail == 0 {
 		return 0, io.EOF
 	}
@@ -105,6 +122,7 @@ func (r *scriptedReader) Read(p []byte) (n int, err error) {
 type faultyWriter struct {
 	failAt    int
 	permanent bool
+	how       string // "" / "nothing": nothing written; "partial": half; "all": everything written, and an error
 	calls     int
 	buf       []byte
 	asString  bool
@@ -114,7 +132,15 @@ func (w *faultyWriter) Write(p []byte) (int, error) {
 	c := w.calls
 	w.calls++
 	if w.failAt >= 0 && (c == w.failAt || (w.permanent && c > w.failAt)) {
-		return 0, errInjected
+		k := 0
+		switch w.how {
+		case "partial":
+			k = len(p) / 2
+		case "all":
+			k = len(p)
+		}
+		w.buf = append(w.buf, p[:k]...)
+		return k, errInjected
 	}
 	w.buf = append(w.buf, p...)
 	return len(p), nil
